@@ -43,6 +43,10 @@ import (
 // by the first configuration again. Every repetition must show the same outcome, and the calls after
 // the repetitions the outcome a fresh process gives.
 //
+// 12% of the cases additionally run the class nil-registered (c19NilRegistered in b12_helpers.go): a name registered
+// with a nil function, a path using it parsed, the name registered properly on the same Config later; the function
+// returned earlier must behave after the later registration exactly as before it.
+//
 // Oracle: the observable outcome of every call — error type and full text, or the dump of the
 // tree that was built plus the results, accessor-ness and the user-function call log on three
 // probe documents — equals the outcome of the very same call made FIRST in a FRESH process
@@ -720,6 +724,19 @@ func (c19) Exec(seed int64, i int, tier string) Record {
 		if d.kind == "panic" || strings.HasPrefix(d.kind, "other") || d.kind == "nilnil" {
 			viol("abnormal", "call %d (%s): abnormal outcome %s", j, descr[j], clip(d.obs, 600))
 		}
+	}
+	// class nil-registered (b12_helpers.go)
+	if nr := CaseRng(seed, "C19nil", i); nr.Chance(12) {
+		v, tags, info := c19NilRegistered(nr)
+		rec.Tags = append(rec.Tags, tags...)
+		for k, x := range info {
+			rec.Info[k] = x
+		}
+		if v != "" {
+			viol("late-binding", "%s", v)
+		}
+		nontrivial = true
+		keyParts = append(keyParts, strings.Join(tags, "+"))
 	}
 	// every function returned during the history still behaves as it did right after Parse
 	for j, d := range done {
